@@ -269,6 +269,23 @@ NATIVE_UNITS = {
                     "as above on LCG-drawn, mostly-sorted headers with perturbations and truncations",
                     "{NR} byte strings with N <= {NP}, fixed seed")],
         params={"quick": {"NP": 72, "NR": 4000}, "thorough": {"NP": 300, "NR": 60000}}),
+    "sorted_deque": NativeUnit("sorted_deque", "sliding_deque",
+        [("sliding_deque/src/sorted_deque.rs", os.path.join(KN, "sorted_deque.rs"))],
+        [NativeTest("verif_native_every_removal_subset_pairs", ["C16"], "SortedDeque::remove",
+                    "same triple as the c16_* harnesses beyond their bound, (key, Option<value>) convention: after EVERY step, iteration, "
+                    "is_empty, first/last and find of every key equal the reference ordered map; removed or popped keys are never "
+                    "found, iterated or returned again; erased pushes are no-ops",
+                    "n = 0..={NK} keys x every subset of removed keys x 3 removal orders x 4 drain patterns (pop_first, pop_last, "
+                    "alternating, remove-front + further pushes)"),
+         NativeTest("verif_native_every_removal_subset_whole_items", ["C16"], "SortedDeque::remove",
+                    "as above for the whole-item ordering convention (SortedDequeItem)", "as above"),
+         NativeTest("verif_native_random_operation_sequences", ["C16"], "SortedDeque::push_back_or_panic",
+                    "as above on LCG-drawn operation sequences, both conventions",
+                    "{NR} sequences of 48 operations over 16 keys, fixed seed"),
+         NativeTest("verif_native_push_not_greater_panics", ["C16"], "SortedDeque::push_back_or_panic",
+                    "pushing a key that is not strictly greater than the current last item panics",
+                    "1..=6 keys, every non-greater key")],
+        params={"quick": {"NK": 10, "NR": 3000}, "thorough": {"NK": 13, "NR": 40000}}, timeout=1200),
     "hcobs": NativeUnit("hcobs", "hcobs",
         [("hcobs/src/lib.rs", os.path.join(KN, "hcobs_find_stuff.rs"))],
         [NativeTest("verif_native_find_stuff_sequence_positions", ["C01", "C02", "C07", "C08"], "find_stuff_sequence",
@@ -327,6 +344,7 @@ PROPERTIES["C15"] = {
 
 PROPERTIES["C16"] = {
     "level": "model_checking",
+    "native_units": ["sorted_deque"],
     "kani_units": ["sliding_deque"],
     "verus_units": [],
     "assumptions": [
